@@ -31,6 +31,7 @@ type scCase struct {
 	SendFaultAt int    `json:"sendFaultAt"`
 	GetFaultAt  int    `json:"getFaultAt"`
 	GetSilent   bool   `json:"getSilent"`
+	Stale       bool   `json:"stale"` // the previous version's outputs are still in place when the cache is asked
 	FaultStyle  string `json:"faultStyle"` // hook | missing   (how the read fault is produced)
 	Shape       string `json:"shape"`      // flat | dir
 }
@@ -202,9 +203,21 @@ func streamCacheEngine(args []string) error {
 			_, err := os.Stat(filepath.Join(cmdDir, hex.EncodeToString(key)))
 			committed = err == nil
 		}
-		// ---- retrieve in a fresh cache object with the outputs gone
+		// ---- retrieve in a fresh cache object: with the outputs gone, or (as the build step does) over the previous
+		// version's outputs -- read-only files of other content under the same names and, inside a directory output, an
+		// entry only the previous version had
 		os.RemoveAll(outDir)
 		os.MkdirAll(outDir, 0775)
+		if c.Stale {
+			for i := 1; i <= c.Files; i++ {
+				p := filepath.Join(outDir, scFileName(c.Shape, i))
+				os.MkdirAll(filepath.Dir(p), 0775)
+				os.WriteFile(p, []byte(fmt.Sprintf("previous version of file %d", i)), 0444)
+			}
+			if c.Shape == "dir" {
+				os.WriteFile(filepath.Join(outDir, "d", "only-in-previous-version"), []byte("stale"), 0444)
+			}
+		}
 		if c.GetFaultAt > 0 {
 			if c.Kind == "http" {
 				srv.truncGet = 40 * c.GetFaultAt
@@ -228,12 +241,13 @@ func streamCacheEngine(args []string) error {
 		cb := cache.NewCache(state)
 		hit := cb.Retrieve(target, key, outs)
 		got := []string{}
-		for i := 1; i <= c.Files; i++ {
-			name := scFileName(c.Shape, i)
-			if b, err := os.ReadFile(filepath.Join(outDir, name)); err == nil {
-				got = append(got, fmt.Sprintf("%s %d", name, len(b)))
+		filepath.Walk(outDir, func(p string, info os.FileInfo, err error) error {
+			if err == nil && !info.IsDir() {
+				rel, _ := filepath.Rel(outDir, p)
+				got = append(got, fmt.Sprintf("%s %d", rel, info.Size()))
 			}
-		}
+			return nil
+		})
 		emit(map[string]any{"id": c.ID, "committed": committed, "hit": hit, "restored": got, "want": want})
 		return nil
 	})
